@@ -17,6 +17,14 @@ func genStructProg(id int, seed int64, nfields int) *Prog {
 		ftypes[i] = []string{"int", "int", "int", "byte", "float64", "string", "bool", "*S", "[]int"}[rng.Intn(9)]
 		fmt.Fprintf(&sb, "\tf%d %s\n", i, ftypes[i])
 	}
+	if nfields >= 2 {
+		ftypes[1] = "*S" // every type with two or more fields has a reference field (rewritten below)
+	}
+	sb.Reset()
+	sb.WriteString("package main\n\nimport \"fmt\"\n\ntype S struct {\n")
+	for i := 0; i < nfields; i++ {
+		fmt.Fprintf(&sb, "\tf%d %s\n", i, ftypes[i])
+	}
 	sb.WriteString("}\n\n")
 	nmeth := 1 + rng.Intn(4)
 	// every other program creates package-level instances BEFORE (and between) the method declarations: methods are
@@ -128,6 +136,25 @@ func genStructProg(id int, seed int64, nfields int) *Prog {
 				show(vars[rng.Intn(3)], g)
 			}
 		}
+	}
+	if nfields >= 2 {
+		// tuple assignments that rebind a variable and store through it in one statement: the receiver operand is the
+		// OLD value of the variable (list-reversal idiom)
+		line("p, q := a, b")
+		line("p, p.f1 = q, b")
+		line("fmt.Println(a.f1 == b, b.f1 == nil, p == b, q == b)")
+		line("r := c")
+		line("r.f1, r = a, b") // the field target comes first, the rebinding after it
+		line("fmt.Println(c.f1 == a, b.f1 == nil, r == b)")
+		line("var prev *S")
+		line("cur := &S{}")
+		line("cur.f1 = &S{}")
+		line("n := 0")
+		line("for cur != nil {")
+		line("\tprev, cur, cur.f1 = cur, cur.f1, prev")
+		line("\tn++")
+		line("}")
+		line("fmt.Println(n, prev != nil, prev.f1 != nil, prev.f1.f1 == nil)")
 	}
 	for m := 0; m < nmeth; m++ {
 		line("fmt.Println(a.m%d(%s), b.m%d(1), c.m%d(2))", m, in("int"), m, m)
